@@ -10,7 +10,7 @@ S = 'self.states.state_stack'
 OS = 'old_self.states.state_stack'
 OTOP = f'{OS}[-1]'
 SAME = f'{S} == {OS}'
-GROW = f'len({S}) >= len({OS})'
+GROW = f'grown({S}, {OS})'
 FRESH = f'spec_fresh({OTOP})'
 REQ = [f'len({S}) >= 1']
 BODY = {'body': 'func:PARSE'}
